@@ -8,20 +8,29 @@ META = {
     "engine": "ExprPrint",
     "technique": "TLA+ reference printer (minimal parentheses) and precedence-climbing parser over abstract expression/statement trees, "
                  "model-checked by TLC (Parse(Print(t)) = t for every tree of the bounded space) together with an implementation-shaped "
-                 "transcription of ast's String methods; every tree's source is parsed by the real parser, printed by the real String(), "
-                 "parsed again, and the two real trees are compared by a TLC Trace spec",
+                 "transcription of ast's String methods; a second TLC-enumerated case space of literal-carrying constructs (extends / "
+                 "import / render paths and string literals over a byte alphabet, each in several literal spellings) with a TLA+ reference "
+                 "of Go string-literal spelling/unquoting and a transcription of strconv.Quote; every tree's source is parsed by the real "
+                 "parser, printed by the real String(), parsed again, and the two real trees are compared by a TLC Trace spec",
     "level": "model_checking",
     "level_text": "TLC explores every abstract tree of depth <= 3 (thorough; in the quick tier the second operand of a depth-3 node is one of four representative trees) (binary operators of Go's five precedence levels plus and/or/not/contains, "
                   "unary - ! ^ * & <- + not, call, index, slice, selector, type assertion, conversions with parenthesised types, composite "
                   "and function literals, assignment/var/send/defer/go/show statements), checks that the reference Print and Parse are "
-                  "inverse on all of them, and records for each tree what the transcribed String methods would do. Every tree's source is "
+                  "inverse on all of them, and records for each tree what the transcribed String methods would do. MC_ExprLit explores every "
+                  "path of <= 2 (quick) / 3 (thorough) characters of a 16-character alphabet (escape letter, dot, slash, backslash, the "
+                  "three quotes, tab, newline, DEL, printable/non-printable non-ASCII of 2 and 4 bytes, space, % and }) that is a valid "
+                  "template path, in extends, import and render, the four spellings of the literal (minimal escapes, all-hex, all-octal, raw) "
+                  "for paths of <= 2 characters, and import forms / expression and statement contexts of render and of string literals for "
+                  "paths of <= 1 (quick) / 2 (thorough) characters; it checks Unquote(Spell(p)) = p and Parse(Print(shape)) = shape. Every tree's source is "
                   "replayed into the real parser and String methods; the Trace spec judges T1 = T2 (property) and Abstract(T1) = t "
                   "(the real parser agrees with the reference on precedence/associativity: diagnostic).",
-    "level_note": "Trusted: TLC, the Json module, the Go driver (joins tokens, calls BuildTemplate/String, dumps trees by reflection; no oracle), "
+    "level_note": "Trusted: TLC, the Json module, the Go driver (joins tokens and fills literal holes with the TLC-spelled bytes, calls "
+                  "BuildTemplate/String, dumps trees by reflection with paths/literal values/text as byte arrays; no oracle), "
                   "the TLA-value reader of this file. String forms that are descriptions, not source ('func literal', 'T{...}'), are read as "
                   "outside the property (class 'elided', counted). Corpus and random sources are judged on T1 = T2 only. The count of "
                   "redundant parentheses and positions are not compared. Not covered: statements without a String method "
-                  "(if/for/switch/...), program (non-template) syntax, struct/interface type bodies beyond the corpus.",
+                  "(if/for/switch/...), program (non-template) syntax, struct/interface type bodies beyond the corpus, paths longer than "
+                  "3 alphabet characters and invalid UTF-8 in literals (random sources only).",
     "design_ref": "7/C27",
 }
 
@@ -125,6 +134,26 @@ def bounds(ctx):
             {"BinOps": ALL_BIN, "UnOps": ALL_UN, "MaxDepth": 3, "StmtDepth": 2, "FullSib": False}]   # every operator
 
 
+def lit_bounds(ctx):
+    """Bounds of the literal-carrying case space (MC_ExprLit): path lengths in characters of its alphabet."""
+    return ctx.pick({"MaxLen": 2, "AltLen": 2, "CtxLen": 1}, {"MaxLen": 3, "AltLen": 2, "CtxLen": 2})
+
+
+def model_check_lit(ctx):
+    """The case space of extends/import/render paths and string literals; returns (used states, TLC result, all states)."""
+    wd = ctx.stage("mclit", FAMS)
+    rig.write_cfg(wd / "MC_ExprLit.cfg", constants=lit_bounds(ctx), invariants=["RefRoundTrip", "InBound"])
+    r = ctx.tlc(wd, "MC_ExprLit", workers=rig.NCPU, timeout=1700, coverage=False, dump=[str(wd / "states.dump")])
+    if not r.ok:
+        if r.invariant_violated:
+            raise Infra("the REFERENCE spelling/unquoting/parser of ExprLit.tla is not a round trip (spec bug): %s/MC_ExprLit.out\n" % wd + rig.tail(r.out, 30))
+        raise Infra(f"MC_ExprLit failed: {wd}/MC_ExprLit.out\n" + rig.tail(r.out, 30))
+    st = read_dump(wd / "states.dump")
+    if len(st) != r.distinct:
+        raise Infra(f"dump has {len(st)} states, TLC reported {r.distinct}")
+    return [x for x in st if x["use"]], r, st
+
+
 def model_check(ctx):
     states, distinct, generated, wall, never = [], 0, 0, 0.0, []
     cfgs = bounds(ctx)
@@ -148,15 +177,22 @@ def model_check(ctx):
             never.append("MakeStmt")
         if not any(x["t"]["k"] not in STMT and x["t"]["c"] and x["t"]["k"] not in ("CompositeLiteral", "Func") for x in st):
             never.append("GrowExpr")
+    n_tree = len({json.dumps(s["t"], sort_keys=True) for s in states})
+    lit, rl, lit_all = model_check_lit(ctx)
+    if not any(len(x["syms"]) == lit_bounds(ctx)["MaxLen"] for x in lit):
+        never.append("GrowPath")
+    states += lit
+    distinct, generated, wall = distinct + rl.distinct, generated + rl.generated, wall + rl.wall
     seen, uniq = set(), []
     for s in states:
-        k = json.dumps(s["t"], sort_keys=True)
+        s.setdefault("lits", [])
+        k = json.dumps([s["t"], s["src"], s["lits"]], sort_keys=True)       # one tree may have several spellings
         if k not in seen:
             seen.add(k)
             uniq.append(s)
     states = uniq
-    cases = [{"id": i + 1, "mode": "stmt" if s["t"]["k"] in STMT else "expr", "t": s["t"], "pred": s["pred"], "src": s["src"]}
-             for i, s in enumerate(states)]
+    cases = [{"id": i + 1, "mode": "stmt" if s["t"]["k"] in STMT else "expr", "t": s["t"], "pred": s["pred"], "src": s["src"],
+              "lits": s["lits"]} for i, s in enumerate(states)]
     pred = {}
     for s in states:
         p = s["pred"]
@@ -164,8 +200,13 @@ def model_check(ctx):
             key = (p["cls"], k1, k2)
             pred[key] = pred.get(key, 0) + 1
     ctx.cov.update(states=distinct, transitions=generated, mc_wall_s=round(wall, 1), distinct_trees=len(states),
-                   mc_invariants=["RefRoundTrip (Parse(Print(t)) = t)", "InBound"],
-                   bounds=json.dumps([{k: sorted(v) if isinstance(v, set) else v for k, v in c.items()} for c in cfgs], sort_keys=True),
+                   operator_space_trees=n_tree,
+                   literal_space={"states": rl.distinct, "cases": len(lit), "invalid_source_not_replayed": len(lit_all) - len(lit),
+                                  "distinct_paths": len({json.dumps(x["syms"]) for x in lit}),
+                                  "spellings": sorted({x["sp"] for x in lit}), "shapes": len({json.dumps(x["shape"], sort_keys=True) for x in lit}),
+                                  "bounds": lit_bounds(ctx)},
+                   mc_invariants=["RefRoundTrip (Parse(Print(t)) = t; for literals Unquote(Spell(p)) = p)", "InBound"],
+                   bounds=json.dumps([{k: sorted(v) if isinstance(v, set) else v for k, v in c.items()} for c in cfgs] + [lit_bounds(ctx)], sort_keys=True),
                    model_counterexample={"what": "implementation-shaped String model: trees for which Parse(IPr(t)) # t (diagnostic, replayed below)",
                                          "trees": sum(1 for s in states if s["pred"]["cls"] != "ok"),
                                          "signatures": sorted("%s %s->%s x%d" % (k + (n,)) for k, n in pred.items())})
@@ -173,7 +214,7 @@ def model_check(ctx):
     return cases, pred
 
 
-STMT = {"Assignment", "Var", "Send", "Defer", "Go", "Show"}
+STMT = {"Assignment", "Var", "Send", "Defer", "Go", "Show", "Extends", "Import"}
 
 
 def judge(ctx, step, obs):
@@ -196,7 +237,7 @@ def judge(ctx, step, obs):
 def case_of(o):
     if o["t"]["k"] == "none":
         return {"id": o["id"], "mode": o["mode"], "text": o["text"]}
-    return {"id": o["id"], "mode": o["mode"], "t": o["t"], "pred": o["pred"], "src": o["src"]}
+    return {"id": o["id"], "mode": o["mode"], "t": o["t"], "pred": o["pred"], "src": o["src"], "lits": o["lits"]}
 
 
 def sample(o):
@@ -204,7 +245,9 @@ def sample(o):
 
 
 def brief(t):
-    s = t["k"] + ("(" + ",".join(t["v"]) + ")" if t["v"] else "")
+    # data fields (paths, literal spellings, text) are logged as byte arrays
+    sc = [x if isinstance(x, str) else json.dumps(bytes(x).decode("utf-8", "backslashreplace")) for x in t["v"]]
+    s = t["k"] + ("(" + ",".join(sc) + ")" if sc else "")
     return s + ("[" + " ".join(brief(c) for c in t["c"]) + "]" if t["c"] else "")
 
 
@@ -234,7 +277,8 @@ def run(ctx, only=None):
     ctx.cov.update(evaluations=len(obs), traces_validated_against_impl=len(obs), model_cases=n_model,
                    corpus_and_random_cases=len(obs) - n_model,
                    distinct_nontrivial=len(nontriv),
-                   rule="every tree of the TLC state space (exhaustive within bounds) printed by the reference printer, plus every expression/"
+                   rule="every tree of the two TLC state spaces (operator trees; literal-carrying constructs x paths x spellings; exhaustive "
+                        "within bounds) printed by the reference printer, plus every expression/"
                         "printable statement of the node-coverage corpus, plus seeded random sources; distinct = distinct source text; "
                         "non-trivial = the real parser accepted it and the tree has at least one child",
                    exhaustive=True,
